@@ -190,6 +190,17 @@ def build(repo=None):
             finder_found = Opaque("PathFinder")
 
             def loop_h(e, node, s0):
+                if not (isinstance(node.target, ast.Tuple) and node.orelse and "meta_path" in ast.unparse(node.iter)):
+                    # some other loop over sys.meta_path (or whatever): zero iterations, or one with an arbitrary element
+                    outs = [(s0.fork(None, "other-loop:skipped"), NORMAL)]
+                    if isinstance(node.target, ast.Name):
+                        s1 = s0.clone()
+                        s1.env[node.target.id] = Opaque("some-existing-finder")
+                        s1.path.append("other-loop:one-iteration")
+                        for s2, o2 in e.run(node.body, s1):
+                            outs.append((s2, NORMAL if o2.kind in ("normal", "continue", "break") else o2))
+                        return outs
+                    raise Unsupported("install_import_hook: unrecognised loop")
                 # for i, finder in enumerate(sys.meta_path): if <is PathFinder>: break / else: raise
                 found = s0.clone()
                 tgt = node.target
@@ -448,6 +459,8 @@ def build(repo=None):
         raise NotFound("_JaxtypingLoader.source_to_code")
     fdesc("_JaxtypingLoader.source_to_code", stc)
     stxt = ast.unparse(stc)
+    obligations.append({"clause": "C10:source_to_code-decodes-the-file-with-importlib's-decode_source(BOM-and-coding-cookie-aware)", "kind": "vc", "pc": [], "path": [], "meta": {}, "serves": ["C10", "C18"],
+                        "goal": z3.BoolVal("source = decode_source(data)" in stxt)})
     order = [stxt.find("ast.PyCF_ONLY_AST"), stxt.find("JaxtypingTransformer(typechecker=self._typechecker).visit(tree)"), stxt.find("ast.fix_missing_locations(tree)"), stxt.rfind("compile, tree, path")]
     obligations.append({"clause": "C18:source_to_code-compiles-the-tree-transformed-with-this-loader's-checker", "kind": "vc", "pc": [], "path": [], "meta": {}, "serves": ["C18", "C10"],
                         "goal": z3.BoolVal(all(x >= 0 for x in order) and order == sorted(order))})
